@@ -50,6 +50,7 @@ def showEv : Ev → String
   | .status op m sz a w => s!"status({op},{m},{sz},{a},{w})"
   | .resized op n => s!"resized({op},{n})"
   | .closedEv op => s!"closed({op})"
+  | .opPanic op => s!"oppanic({op})"
 
 def sortNat (xs : List Nat) : List Nat := (xs.toArray.qsort (· < ·)).toList
 
